@@ -220,6 +220,9 @@ func (l *Gpos4_1) encode() []byte {
 			}
 		}
 	}
+	if baseArrayOffset > 0xFFFF || total-baseArrayOffset > 0xFFFF || markClassCount > 0xFFFF || baseCount > 0xFFFF {
+		panic("GPOS4.1 table too large")
+	}
 	res := make([]byte, 0, total)
 
 	res = append(res,
